@@ -163,8 +163,8 @@ def dry_work(chunk):
 STATUSES = ["AVAIL", "PEND", "ACTIVE"]
 
 
-def acctinfo_term(i, ty, status):
-    acctid = f"{ty[:2]}{i}"
+def acctinfo_term(i, ty, status, acctid=None):
+    acctid = acctid or f"{ty[:2]}{i}"
     if ty == "creditcard":
         inner = ("CCACCTINFO", {"ccacctfrom": ("CCACCTFROM", {"acctid": acctid}, []), "suptxdl": True, "xfersrc": False, "xferdest": False, "svcstatus": status}, [])
     elif ty == "investment":
@@ -227,11 +227,13 @@ def all_work(chunk):
     return t
 
 
+CONFIGURED = {"checking": ["9001", "9002"], "savings": ["9101"], "creditcard": ["9401"], "investment": ["9501"]}
+
+
 def cfg_all_work(chunk):
     """--all for a nickname whose configuration section already lists accounts: for every account type the server lists
-    as ACTIVE the request must ask the server's accounts, not the configured ones.  (Types the response does not
-    mention at all keep their configured accounts on the pinned tree; that interplay is not pinned down and every
-    response here has an ACTIVE account of each configured type.)"""
+    as ACTIVE the request must ask the server's accounts, not the configured ones; a configured account the server lists
+    as not active (or does not list) is not requested."""
     import importlib
 
     from ofxtools import config
@@ -246,7 +248,7 @@ def cfg_all_work(chunk):
             userfile.parent.mkdir(parents=True, exist_ok=True)
             userfile.write_text("[mybank]\nurl = " + URL + "\nuser = jdoe\nbankid = 999999999\nbrokerid = old.broker\nchecking = 9001, 9002\nsavings = 9101\ncreditcard = 9401\ninvestment = 9501\n")
             og = importlib.reload(ofxget())
-            infos = [acctinfo_term(i, ty, st) for i, (ty, st) in enumerate(seq)]
+            infos = [acctinfo_term(i, *e) for i, e in enumerate(seq)]
             got = []
 
             def handler(ex):
@@ -258,9 +260,15 @@ def cfg_all_work(chunk):
 
             net.handler = handler
             argv = [cmd, "mybank", "--password", "pw", "--all", "--skipprofile"]
-            active = [(ty, f"{ty[:2]}{i}") for i, (ty, st) in enumerate(seq) if st == "ACTIVE" and (cmd == "stmt" or ty != "investment")]
+            active = [(e[0], e[2] if len(e) > 2 else f"{e[0][:2]}{i}") for i, e in enumerate(seq) if e[1] == "ACTIVE" and (cmd == "stmt" or e[0] != "investment")]
             case = {"part": "cfg-all", "cmd": cmd, "seq": [list(x) for x in seq]}
             sig = f"C19|{cmd}|all-with-configured-accounts"
+            have = {e[0] for e in seq if e[1] == "ACTIVE"}
+            if not have >= set(CONFIGURED):
+                # a configured type without an ACTIVE account in the response: its configured accounts are either listed
+                # as not active, or not listed - in both cases they are not among "the accounts the server lists as ACTIVE"
+                listed = {e[0] for e in seq}
+                sig += "|configured-type-" + ("listed-inactive" if set(CONFIGURED) - have <= listed else "not-listed")
             t.count("evaluations")
             t.count("all-runs")
             t0 = c06.now_ms()
@@ -339,6 +347,27 @@ def run(ctx):
         jobs.append(("cfgall", ("stmt", (perm[0], ("checking", "AVAIL"), perm[1], ("creditcard", "PEND"), perm[2], perm[3], ("checking", "ACTIVE")))))
     for perm in _it.permutations(core[:3]):
         jobs.append(("cfgall", ("stmtend", perm + (("investment", "ACTIVE"),))))
+    # configured types for which the response has no ACTIVE account: every subset of the four configured types keeps an
+    # ACTIVE (new) account; the configured accounts of the others are listed as PEND / AVAIL, or not listed at all
+    types = list(CONFIGURED)
+    for r in range(len(types) + 1):
+        for keep in _it.combinations(types, r):
+            if len(keep) == len(types):
+                continue
+            for treatment in ("listed-inactive", "not-listed"):
+                seq = [(ty, "ACTIVE") for ty in keep]
+                if treatment == "listed-inactive":
+                    k = 0
+                    for ty in types:
+                        if ty not in keep:
+                            for acctid in CONFIGURED[ty]:
+                                seq.append((ty, ("PEND", "AVAIL")[k % 2], acctid))
+                                k += 1
+                rot = len(keep) % max(1, len(seq))
+                seq = tuple(seq[rot:] + seq[:rot])
+                jobs.append(("cfgall", ("stmt", seq)))
+                if "investment" in keep or r <= 1:
+                    jobs.append(("cfgall", ("stmtend", seq)))
     tally = ctx.pmap(dispatch, jobs)
     if tally.counts.get("dry-runs", 0) < 900 or tally.counts.get("all-runs", 0) < 500:
         vacuous(tally, f"vacuous: {tally.counts}")
